@@ -10,3 +10,6 @@ pub open spec fn ipow(b: int, e: nat) -> int
 pub assume_specification[ usize::pow ](a: usize, e: u32) -> (r: usize)
     requires ipow(a as int, e as nat) <= usize::MAX,     // #pow_no_overflow
     ensures r == ipow(a as int, e as nat);
+
+pub assume_specification[ i32::unsigned_abs ](x: i32) -> (r: u32)
+    ensures r as int == (if x >= 0 { x as int } else { -(x as int) });
